@@ -3,7 +3,7 @@
    execution); Gen/GenSpecs.v: every specification of the current tree (regenerated on every run). *)
 From Coq Require Import List NArith ZArith Bool.
 From PM Require Import Base.Bytes Gen.GenConsts Model.ScriptAst Model.RegexSyn Model.Fmt Model.SpecCheck
-  Spec.SpecCheckSpec Gen.GenSpecs Proofs.SpecCheckProofs Proofs.SpecCheckShipped.
+  Model.SpecDigest Spec.SpecCheckSpec Gen.GenSpecs Proofs.SpecCheckProofs Proofs.SpecCheckShipped.
 Import ListNotations.
 
 (* ---- the sweep: every rule holds of every specification in every shipped file *)
@@ -23,6 +23,12 @@ Theorem C17_counts :
   length shipped_files = n_files /\ length all_specs = n_specs /\ count_scripts = n_scripts /\ count_stmts = n_stmts.
 Proof. exact shipped_counts. Qed.
 Print Assumptions C17_counts.
+
+(* ---- the Coq terms of GenSpecs.v carry the fingerprints the translator computed from the reader's trees; the
+   check recomputes the same fingerprints from the REAL parser's dump of every file *)
+Theorem C17_terms_faithful : map (fun p => SpecDigest.spec_digest (snd p)) all_specs = spec_digests.
+Proof. exact shipped_digests. Qed.
+Print Assumptions C17_terms_faithful.
 
 (* ---- meaning of the rules.  [run arg body tr]: tr is the sequence of hsprintf / successful expect / sub_strdup
    calls of a complete execution of the script; every real execution is a prefix, hence "tr = pre ++ ev :: post" *)
@@ -162,6 +168,11 @@ Proof. intros (re & g & L & _). vm_compute in L. discriminate. Qed.
 Example fmt_args_examples :
   fmt_args (S "on %s\n") = [AStr] /\ fmt_args (S "100%% %-8.3s") = [AStr] /\ fmt_args (S "%5d %*s %ls %n") = [AInt; AInt; AStr; AWStr; AWritePtr].
 Proof. vm_compute. repeat split; reflexivity. Qed.
+Example digest_sees_a_dropped_statement :
+  spec_digest (mk [login_ok]) <> spec_digest (mk [(PM_LOG_IN, [Send (S "login\n")])]) /\
+  spec_digest (mk [(PM_LOG_IN, [ForeachPlug [Send (S "a")]; Send (S "b")])])
+    <> spec_digest (mk [(PM_LOG_IN, [ForeachPlug [Send (S "a"); Send (S "b")]])]).
+Proof. split; vm_compute; discriminate. Qed.
 Example ngroups_examples :
   ngroups (S "plug ([0-9]+): (ON|OFF)") = Some 2%nat /\ ngroups (S "[]()]\(x\)(y)") = Some 1%nat /\
   ngroups (S "[[:alpha:](]+(a(b))") = Some 2%nat /\ ngroups (repeat 40%N 257) = None.
